@@ -1034,6 +1034,11 @@ def exec_load(cx, head, tail):
                     errs.append(f"load: Python yields {e[0]} after the core reader is exhausted")
                 break
             e = guarded(lambda: next(loader))
+            if kind == "greedy" and fobj.over > 0 and e[0] in ("OSError", "ValueError"):
+                # the file object broke the contract of read() (whatever the core reader would have said
+                # of this record, given all the bytes): an ordinary exception at the record being read
+                recs.append(("io", "OSError") if e[0] == "OSError" else ("parse", "ValueError"))
+                break
             if cr.startswith("err"):
                 rk = {"err io": "io", "err data": "data", "err parse": "parse", "err counts": "nocounts"}[cr]
                 want = "OSError" if rk == "io" else "ValueError"
